@@ -137,6 +137,12 @@ type Conn struct {
 	encTableSize     uint32
 	encTableSizeSeen uint32
 
+	// encTableLow is the smallest size the server asked for since the write
+	// loop last looked (noTableLow when it has not asked). Several SETTINGS
+	// frames can arrive between two requests, and the server's decoder has been
+	// through every one of the sizes, so the lowest must be signalled too.
+	encTableLow uint32
+
 	current Settings
 
 	// hdrRest, hdrFields and hdrRegularSeen carry a response header block from
@@ -224,6 +230,9 @@ func (c *Conn) closeErr() error {
 	return ErrConnectionClosed
 }
 
+// noTableLow is the value of Conn.encTableLow when there is nothing to signal.
+const noTableLow = 1<<32 - 1
+
 // NewConn returns a new HTTP/2 connection.
 // To start using the connection you need to call Handshake.
 func NewConn(c net.Conn, opts ConnOpts) *Conn {
@@ -240,6 +249,7 @@ func NewConn(c net.Conn, opts ConnOpts) *Conn {
 		streamWindow:  int32(defaultWindowSize),
 		maxStreams:    defaultConcurrentStreams,
 		maxFrameSize:  defaultDataFrameSize,
+		encTableLow:   noTableLow,
 		pending:       make(map[uint32]*pendingBody),
 		reqQueued:     make(map[uint32]*Ctx),
 		winCh:         make(chan struct{}, 1),
@@ -982,7 +992,13 @@ func (c *Conn) writeRequest(ctx *Ctx) error {
 	// The server may have changed the header table size since the last request.
 	// The encoder is the write loop's, so this is the only safe place to apply
 	// it, and the encoder signals the change to the peer's decoder itself.
-	if size := atomic.LoadUint32(&c.encTableSize); size != c.encTableSizeSeen {
+	low := atomic.SwapUint32(&c.encTableLow, noTableLow)
+
+	if size := atomic.LoadUint32(&c.encTableSize); size != c.encTableSizeSeen || low < size {
+		if low < size {
+			c.enc.SetMaxTableSize(low)
+		}
+
 		c.encTableSizeSeen = size
 		c.enc.SetMaxTableSize(size)
 	}
@@ -1502,6 +1518,15 @@ func (c *Conn) handleSettings(st *Settings) {
 
 	// The encoder belongs to the write loop, so the new table size is handed
 	// over rather than applied here.
+	if st.seen&(1<<(HeaderTableSize-1)) != 0 {
+		for {
+			low := atomic.LoadUint32(&c.encTableLow)
+			if st.tableSizeLow >= low || atomic.CompareAndSwapUint32(&c.encTableLow, low, st.tableSizeLow) {
+				break
+			}
+		}
+	}
+
 	atomic.StoreUint32(&c.encTableSize, c.serverS.HeaderTableSize())
 
 	// A change to SETTINGS_INITIAL_WINDOW_SIZE applies to every stream that is
